@@ -23,7 +23,7 @@ LEVEL = "model_checking"
 RULE = (
     "parent machine with one root-level event per actor operation: spawnChild with id / with id+systemId / anonymous, "
     "spawn_<service> action, sendTo by id / systemId / service key / unknown name, forwardTo, delayed sendTo with a "
-    "send id, a second delayed send reusing the id, cancel(id), stopChild by id / systemId, child spawning a grandchild, "
+    "send id, a second delayed send reusing the id, cancel(id), stopChild by id / systemId, child spawning a grandchild that registers a systemId of its own, "
     "escalate, TICK (virtual time passes), stop; BFS over operation sequences to the depth bound, deduplicated by "
     "(canonical implementation state, reference-model state); after EVERY step the implementation is compared with a "
     "dictionary reference model: children map, registry, per-actor received sequence numbers, parent's "
@@ -72,7 +72,7 @@ def make(rec) -> Dict[str, Any]:
          "states": {"x": {"on": {
              "MSG": {"actions": ["recv", A.send_parent(seq_event("ACK"))]},
              "FWDMSG": {"actions": ["recv"]},
-             "GRAND": {"actions": [A.spawn_child("grand", actor_id="g")]},
+             "GRAND": {"actions": [A.spawn_child("grand", actor_id="g", system_id="sysg")]},
              "ESC": {"actions": [A.escalate("boom")]},
          }}}},
         logic=MachineLogic(actions={"recv": recv}, services={"grand": grand}),
@@ -138,7 +138,7 @@ class Model:
     def kill(self, aid: str) -> None:
         self.actors.pop(aid, None)
         for sid, target in list(self.registry.items()):
-            if target == aid:
+            if target == aid or target.startswith(aid + ":"):   # the actor and all its descendants
                 del self.registry[sid]
 
     def deliver(self, aid: Optional[str], n: int, etype: str = "MSG") -> bool:
@@ -206,6 +206,7 @@ class Model:
         elif op == "GRAND":
             if "m:a" in self.actors:
                 self.actors["m:a"]["kids"]["m:a:g"] = True
+                self.registry["sysg"] = "m:a:g"
             else:
                 exp["warn"] = True
         elif op == "ESC":
